@@ -18,6 +18,41 @@ CHECKS = {
         "(DESIGN §4 C14), not a blanket tolerance.",
         "oracles/sphere.py",
     ),
+    "C11": (
+        "exploration",
+        "round-trip monitors with member-wise comparison and an independent decimal oracle for the text format",
+        "Generated CorrFunc/NormalisedCounts/PatchedCounts/PatchedSumWeights/Binning (HDF5, all member subsets, zero/sparse "
+        "counts), Configurations (YAML, every method/closed/unit/scales/cosmology name, custom edges), CorrData/RedshiftData/"
+        "HistData (text files, 1..8 bins, NaN/inf, 1e-9..1e12), Metadata (YAML) and catalogs (cache directory) are written by "
+        "the real code, read back by the real code and compared member by member and through downstream results; the evidence "
+        "counts the round trips per product.",
+        "The fixed-width oracle (round to 10 decimals, cut to 10 characters) is computed with decimal, independent of the "
+        "repository's formatter; custom cosmologies are not serialisable by documentation and are excluded.",
+        "checks/c11_roundtrip.py",
+    ),
+    "C15": (
+        "exploration",
+        "reference-model monitor (astropy-only oracle) + construction-path equivalence modify() vs create(merged)",
+        "Seeded parameter dictionaries over the full product of methods, closed sides, units, scale lists, cosmologies (named "
+        "and CustomCosmology), generated/custom edges are built by Configuration.create and judged against an oracle that uses "
+        "astropy only (edge count, exact zmin/zmax, uniform spacing in the method's variable, angle = r/D(z)); every "
+        "configuration is modified four times and compared with create() on the merged parameters (description, to_dict, "
+        "edges bitwise, ==), immutability and the invalid-parameter table are checked.",
+        "Merging rule for the two exclusive binning parameter groups as in to_dict(); uniform spacing judged to 1e-6 of a bin "
+        "plus the 1e-7 accuracy of astropy's numerical inversion.",
+        "checks/c15_config.py",
+    ),
+    "C17": (
+        "exploration",
+        "algebraic-law monitor over generated containers + icontract structural invariants on the real classes",
+        "~350 law instances per generated container family (add/sum/radd, scalar multiplication incl. sampled estimates "
+        "under a conditioned tolerance, ==/!=, bins/patches by every index, slice, negative/stepped slice and iteration, "
+        "commutation with sample_patch_sum/sample/covariance, rejection of incompatible operands and shapes) for every "
+        "container class, with icontract invariants (shapes, strictly increasing edges, member compatibility) evaluated on "
+        "every public call; evidence lists law instances and invariant evaluations.",
+        "CorrFunc + CorrFunc with different optional members and empty slices are not judged (statement does not define them).",
+        "checks/c17_algebra.py, engines/contracts.py",
+    ),
 }
 
 NOT_YET = {}
